@@ -47,6 +47,61 @@ pub async fn handle(req: &Value, _ctx: &Arc<FrontendContext>) -> Value {
             hooks::set_clock_millis_script(vec![]);
             json!({"lifetimes": out, "bases": bases})
         }
+        // write WAL log files with the engine's own line format; returns the lines written per file
+        "mkwal" => {
+            use snel_db::engine::core::WalEntry;
+            let shard = req["shard"].as_u64().unwrap_or(0) as usize;
+            let dir = std::path::PathBuf::from(&snel_db::shared::config::CONFIG.wal.dir).join(format!("shard-{}", shard));
+            let _ = std::fs::create_dir_all(&dir);
+            let mut out = vec![];
+            for f in req["files"].as_array().cloned().unwrap_or_default() {
+                let id = f["id"].as_u64().unwrap_or(0);
+                let mut text = String::new();
+                let mut lines = vec![];
+                for e in f["entries"].as_array().cloned().unwrap_or_default() {
+                    let mut w = WalEntry {
+                        timestamp: e["ts"].as_u64().unwrap_or(0),
+                        context_id: e["ctx"].as_str().unwrap_or("").to_string(),
+                        event_type: e["type"].as_str().unwrap_or("").to_string(),
+                        payload: Default::default(),
+                        event_id: snel_db::engine::core::EventId::from_raw(e["event_id"].as_u64().unwrap_or(0)),
+                    };
+                    w.set_payload_json(e["payload"].clone());
+                    let line = serde_json::to_string(&w).unwrap_or_default();
+                    text.push_str(&line);
+                    text.push('\n');
+                    lines.push(line);
+                }
+                if let Some(t) = f["torn_tail"].as_str() {
+                    text.push_str(t); // an incomplete last line (no newline)
+                }
+                let path = dir.join(format!("wal-{:05}.log", id));
+                let _ = std::fs::write(&path, text);
+                out.push(json!({"id": id, "lines": lines}));
+            }
+            json!({"files": out, "dir": dir})
+        }
+        // production cleanup path + archive recovery
+        "walclean" => {
+            let shard = req["shard"].as_u64().unwrap_or(0) as usize;
+            let keep_from = req["keep_from"].as_u64().unwrap_or(0);
+            let cleaner = snel_db::engine::core::WalCleaner::new(shard);
+            let r = tokio::task::spawn_blocking(move || {
+                std::panic::catch_unwind(move || cleaner.cleanup_up_to(keep_from)).is_ok()
+            })
+            .await
+            .unwrap_or(false);
+            let archive_dir = std::path::PathBuf::from(&snel_db::shared::config::CONFIG.wal.archive_dir).join(format!("shard-{}", shard));
+            let rec = snel_db::engine::core::WalArchiveRecovery::new(shard, archive_dir.clone());
+            let recovered: Vec<String> = rec.recover_all().map(|v| v.iter().map(|e| serde_json::to_string(e).unwrap_or_default()).collect()).unwrap_or_default();
+            let per_archive: Vec<Value> = rec
+                .list_archives()
+                .unwrap_or_default()
+                .iter()
+                .map(|p| json!({"name": p.file_name().map(|n| n.to_string_lossy().to_string()), "entries": rec.recover_from_archive(p).map(|v| v.iter().map(|e| serde_json::to_string(e).unwrap_or_default()).collect::<Vec<_>>()).ok()}))
+                .collect();
+            json!({"no_panic": r, "recovered": recovered, "archives": per_archive, "archive_dir": archive_dir})
+        }
         _ => json!({"error": format!("unknown internal op {}", what)}),
     }
 }
